@@ -622,3 +622,26 @@ def rule_p6_sampled_search(prog: Program, col: Collector) -> None:
     caps = [e for e in ft.calls() if is_global(e.func, P + "coalitions.get_known_coalitions")]
     col.check(bool(caps) and all(e.seq < first_reset and not any(f[0] in ("for", "while") for f in e.ctx) for e in caps), ref.where(caps[0].node if caps else None), ref.short,
               "the starting knowledge is read once, before the first reset and outside the sampling loop", construct="sample-capture-order", necessity=NEC)
+    # every sampled game is the one its evaluation is BOUND to: terms carry no identity (two draws are one term), so this is decided on events -
+    # the evaluation of a draw is a call of the worker (or the creation of a functools.partial of it) that happens after that draw, in the same loop
+    WORKER = P + "gameplay.get_exploitabilities_of_action_sequences"
+    draws = [e for e in ft.calls() if e.func == GEN]
+    bindings = []
+    for e in ft.calls():
+        if is_global(e.func, WORKER):
+            bindings.append((e, e))
+        elif e.func[0] == "call" and is_global(e.func[1], "functools.partial") and e.func[2] and is_global(e.func[2][0], WORKER):
+            made = [p for p in ft.calls() if p.term == e.func]
+            if made:
+                bindings.append((e, min(made, key=lambda p: p.seq)))
+
+    def loops_of(ev) -> tuple:
+        return tuple(f[1] for f in ev.ctx if f[0] in ("for", "while"))
+    if not draws or not bindings:
+        col.undecidable(ref.where(), ref.short, "draws of the full game / calls of the search worker not found", rule="P6")
+    for d in draws:
+        okb = any(b.seq > d.seq and use.seq > d.seq and loops_of(b) == loops_of(d) and loops_of(use) == loops_of(d) for use, b in bindings)
+        col.check(okb, ref.where(d.node), ref.short,
+                  "each drawn game is evaluated by a worker call bound AFTER the draw, in the same iteration (no evaluation callable captured before the loop)",
+                  construct="sample-stale-binding",
+                  necessity="a functools.partial (or closure default) created before the loop keeps the FIRST game: every later row repeats sample 0 while the knowledge is re-set from the new game")
